@@ -240,7 +240,21 @@ fn fast_eq_check(a: &LuaType, b: &LuaType) -> bool {
     }
 }
 
+thread_local! {
+    /// nesting depth of generic alias expansion on this thread, see `instantiate_generic_alias_origin`
+    static ALIAS_EXPANSION_DEPTH: std::cell::Cell<usize> = const { std::cell::Cell::new(0) };
+}
+
 fn instantiate_generic_alias_origin(db: &DbIndex, generic: &LuaGenericType) -> Option<LuaType> {
+    // A self-referential generic alias (`---@alias A<T> A<T> extends string and T or never`)
+    // expands into itself: expanding its conditional checks the alias again, and so on.
+    // Stop expanding at a fixed depth instead of overflowing the stack.
+    const MAX_ALIAS_EXPANSION_DEPTH: usize = 32;
+    let depth = ALIAS_EXPANSION_DEPTH.with(|d| d.get());
+    if depth >= MAX_ALIAS_EXPANSION_DEPTH {
+        return None;
+    }
+
     let base_id = generic.get_base_type_id();
     let decl = db.get_type_index().get_type_decl(&base_id)?;
     if !decl.is_alias() {
@@ -248,6 +262,14 @@ fn instantiate_generic_alias_origin(db: &DbIndex, generic: &LuaGenericType) -> O
     }
 
     let substitutor = TypeSubstitutor::from_alias(generic.get_params().clone(), base_id);
+    struct DepthGuard(usize);
+    impl Drop for DepthGuard {
+        fn drop(&mut self) {
+            ALIAS_EXPANSION_DEPTH.with(|d| d.set(self.0));
+        }
+    }
+    ALIAS_EXPANSION_DEPTH.with(|d| d.set(depth + 1));
+    let _restore = DepthGuard(depth);
     decl.get_alias_origin(db, Some(&substitutor))
 }
 
